@@ -44,7 +44,16 @@ def run_case(fmt, case, per_req_timeout):
     base_io = getattr(fh, "bytes_read", 0)
     stats["open_io"] = base_io
     stats["per_request_io"] = []
-    for req in case["requests"]:
+    for ri, req in enumerate(case["requests"]):
+        if ri % 2:
+            # another user of the same underlying handle(s) -- a second overlay on the same backing image, a sibling extent on the same
+            # file, the caller itself -- may have moved them in between: every read of the library has to position the handle itself
+            for h_ in (fh if isinstance(fh, (tuple, list)) else [fh]):
+                if h_ is not None and hasattr(h_, "seek") and hasattr(h_, "tell"):
+                    try:
+                        h_.seek((ri * 7919 + 13) % (getattr(h_, "size", 0) + 1))
+                    except Exception:  # noqa: BLE001
+                        pass
         io0 = getattr(fh, "bytes_read", 0)
         off, ln = req[0], req[1]
         api = req[2] if len(req) > 2 else "stream.read"
